@@ -4,6 +4,8 @@ import PhreeqcVerif.Gen.RKTableau
 import PhreeqcVerif.Lemmas.RK
 import Mathlib.Tactic.Ring
 import Mathlib.Tactic.Linarith
+import Mathlib.Algebra.Order.Field.Basic
+import Mathlib.Tactic.SplitIfs
 import Mathlib.Algebra.Order.AbsoluteValue.Basic
 import Mathlib.Tactic.FieldSimp
 import Mathlib.Tactic.NormNum
@@ -349,5 +351,194 @@ example :
 example :
     letI := ratOps ⟨id, id, id, id, id, id, id, id, id, id⟩
     sumSteps (PhreeqcVerif.KinTime.currentStep natQ [30] 3 true true) 3 = 30 := by decide +kernel
+
+/-! ## 7. CVODE driver: re-start state and call counter (statements read from cvode.cpp / kinetics.cpp) -/
+
+section cvode
+open PhreeqcVerif.KinTime
+
+/-- the re-start pair is an accepted (time, solution) pair -/
+def CvInv (s : Cv) : Prop := (s.tn, s.zn0) ∈ s.accepted ∧ (s.lastT, s.lastY) ∈ s.accepted
+
+theorem cvAttempt_inv (s : Cv) (a : Rat × Rat × Bool) (h : CvInv s) : CvInv (cvAttempt 0 s a).1 := by
+  obtain ⟨h1, _⟩ := h
+  unfold cvAttempt
+  by_cases hok : a.2.2 = true
+  · simp only [hok, if_true]
+    exact ⟨List.mem_cons_self, List.mem_cons_of_mem _ h1⟩
+  · simp only [hok]
+    exact ⟨h1, h1⟩
+
+theorem cvStep_inv (s : Cv) (as : List (Rat × Rat × Bool)) (h : CvInv s) : CvInv (cvStep 0 s as) := by
+  induction as generalizing s with
+  | nil => exact h
+  | cons a rest ih =>
+    unfold cvStep
+    by_cases hr : (cvAttempt 0 s a).2 = true
+    · simp only [hr, if_true]; exact cvAttempt_inv s a h
+    · simp only [hr]; exact ih _ (cvAttempt_inv s a h)
+
+/-- the hook of the current source stores the Nordsieck solution `zn[0]` and tests the same vector -/
+theorem hook_reads_nordsieck : hookSaveVec = 0 ∧ hookTestVec = 0 := by decide
+
+/-- **restart_state_matches_time**: with the hook as it is in the current source, whatever the sequence of steps, failed attempts
+and corrector iterates of a CVode call, the pair (`cvode_last_good_time`, `cvode_last_good_y`) handed to a re-started call is a pair
+(time, solution) that the integrator accepted — the re-start never continues from the state of a rejected attempt -/
+theorem restart_state_matches_time (y0 : Rat) (steps : List (List (Rat × Rat × Bool))) :
+    ((cvCall hookSaveVec (cvInit y0) steps).lastT, (cvCall hookSaveVec (cvInit y0) steps).lastY) ∈
+      (cvCall hookSaveVec (cvInit y0) steps).accepted := by
+  rw [hook_reads_nordsieck.1]
+  have key : ∀ (steps : List (List (Rat × Rat × Bool))) (s : Cv), CvInv s → CvInv (cvCall 0 s steps) := by
+    intro steps
+    induction steps with
+    | nil => intro s h; exact h
+    | cons st rest ih =>
+      intro s h
+      unfold cvCall
+      rw [List.foldl_cons]
+      exact ih _ (cvStep_inv s st h)
+  exact (key steps (cvInit y0) ⟨by simp [cvInit], by simp [cvInit]⟩).2
+
+/-- the theorem is not vacuous: a hook that stores the work vector `y` (the code before /repo 0450d481) hands over the iterate of a
+rejected attempt paired with the time before it -/
+example :
+    let s := cvCall 1 (cvInit 1) [[(1, 5, false), (1/2, 2, true)]]
+    ((s.lastT, s.lastY) == (0, 5) && !(s.accepted.contains (s.lastT, s.lastY))) = true := by decide +kernel
+
+example :
+    let s := cvCall hookSaveVec (cvInit 1) [[(1, 5, false), (1/2, 2, true)], [(1, 3, true)]]
+    ((s.lastT, s.lastY) == (1/2, 2) && s.tn == 3/2) = true := by decide +kernel
+
+/-- the restart loop gives up exactly when the number of re-started calls reaches `-bad_step_max` (`++m_iter >= bad_step_max`);
+otherwise it covers `T` (see `restart_covers_T`).  Without any failed call the counter is never looked at. -/
+theorem restart_limit (bsm : Nat) (tout : Rat) (lasts : List Rat) :
+    (restartLimited restartProg restartCallArg restartStopsAtGe bsm tout lasts).isSome = true ↔
+      (lasts.length = 0 ∨ lasts.length < bsm) := by
+  have hge : restartStopsAtGe = true := by decide
+  unfold restartLimited
+  rw [hge]
+  simp only [if_true]
+  by_cases hany : (List.range lasts.length).any (fun i => decide (bsm ≤ i + 1)) = true
+  · rw [hany]
+    simp only [if_true]
+    obtain ⟨i, hi, hb⟩ := List.any_eq_true.mp hany
+    have hi' := List.mem_range.mp hi
+    have hb' : bsm ≤ i + 1 := by simpa using hb
+    constructor
+    · intro h; simp at h
+    · intro h; omega
+  · have hf : (List.range lasts.length).any (fun i => decide (bsm ≤ i + 1)) = false := by simpa using hany
+    rw [hf]
+    simp only [Bool.false_eq_true, if_false, Option.isSome_some, true_iff]
+    by_cases hz : lasts.length = 0
+    · exact Or.inl hz
+    · right
+      have hm : lasts.length - 1 ∈ List.range lasts.length := List.mem_range.mpr (by omega)
+      have := (List.any_eq_false.mp hf) _ hm
+      simp at this
+      omega
+
+end cvode
+
+/-! ## 8. MOLES_TOO_LARGE: the reduction that is never counted -/
+
+section hang
+variable (f : TransFns Rat)
+
+/-- once `moles_reduction` exceeds 1 it stays above 1 while the remaining reactants are looked at -/
+theorem updReduction_keeps (P : Params Rat) (mmax : Rat) (hm : 0 < mmax) (k : List Rat) :
+    letI := ratOps f
+    ∀ r : Rat, 1 < r → 1 < updReduction P mmax r k := by
+  let _ : NumOps Rat := ratOps f
+  induction k with
+  | nil => intro r hr; simpa [updReduction] using hr
+  | cons x t ih =>
+    intro r hr
+    unfold updReduction
+    rw [List.foldl_cons]
+    by_cases hc : r * mmax < absv P.zero x
+    · simp only [hc, if_true]
+      apply ih
+      rw [lt_div_iff₀ hm]
+      nlinarith
+    · simp only [hc, if_false]
+      exact ih r hr
+
+/-- a stage value above `moles_max` (0.1 mol, or `-step_divide` when < 1) in any reactant drives `moles_reduction` above 1 -/
+theorem updReduction_gt (P : Params Rat) (mmax : Rat) (hm : 0 < mmax) (k : List Rat)
+    (hbig : letI := ratOps f; ∃ x ∈ k, mmax < absv P.zero x) :
+    letI := ratOps f
+    ∀ r : Rat, 0 < r → 1 < updReduction P mmax r k := by
+  let _ : NumOps Rat := ratOps f
+  induction k with
+  | nil => obtain ⟨x, hx, _⟩ := hbig; simp at hx
+  | cons y t ih =>
+    intro r hr
+    obtain ⟨x, hx, hxb⟩ := hbig
+    unfold updReduction
+    rw [List.foldl_cons]
+    rcases List.mem_cons.mp hx with rfl | hxt
+    · by_cases hc : r * mmax < absv P.zero x
+      · simp only [hc, if_true]
+        apply updReduction_keeps f P mmax hm t
+        rw [lt_div_iff₀ hm]; linarith
+      · simp only [hc, if_false]
+        apply updReduction_keeps f P mmax hm t
+        have : absv P.zero x ≤ r * mmax := Rat.not_lt.mp hc
+        by_contra hle
+        have hr1 : r ≤ 1 := Rat.not_lt.mp hle
+        nlinarith
+    · by_cases hc : r * mmax < absv P.zero y
+      · simp only [hc, if_true]
+        apply ih ⟨x, hxt, hxb⟩
+        have hy : 0 < absv P.zero y := lt_of_le_of_lt (le_of_lt (mul_pos hr hm)) hc
+        exact div_pos hy hm
+      · simp only [hc, if_false]
+        exact ih ⟨x, hxt, hxb⟩ r hr
+
+/-- **MOLES_TOO_LARGE never ends when the SAVEd moles do not shrink with TIME**: if a fresh evaluation of the rates returns
+more than `moles_max` for some reactant — for every time, amount and sub-step size, as with `10 SAVE 2` — the attempt goes to
+MOLES_TOO_LARGE instead of computing anything … -/
+theorem fresh_attempt_reduces (P : Params Rat) (hone : P.one = 1) (F : Rat → List Rat → Rat → List Rat) (t0 : Rat)
+    (tol : List Rat) (h hOld hSum : Rat) (ch : Chem Rat) (hl : ch.lBad = false) (hm : 0 < ch.molesMax) (hr : 0 < ch.mr)
+    (hF : letI := ratOps f; ∀ t m h', ∃ x ∈ F t m h', ch.molesMax < absv P.zero x) :
+    letI := ratOps f
+    ∃ c', pass P F t0 tol h hOld hSum ch = .reduce c' ∧ 1 < c'.mr := by
+  unfold pass k1Stage
+  simp only [hl, Bool.false_eq_true, if_false, evalAt, orReduce]
+  have key := updReduction_gt f P ch.molesMax hm _ (hF (t0 + hSum) ch.m h) ch.mr hr
+  rw [hone]
+  simp only [key, if_true]
+  exact ⟨_, rfl, key⟩
+
+/-- … and the reduction it triggers shrinks the sub-step without advancing time and without counting a bad step, so neither the
+`while (h_sum < kin_time)` test nor `-bad_step_max` can ever stop the loop -/
+theorem reduction_not_counted (P : Params Rat) (ct : Ctrl Rat) (ch : Chem Rat) :
+    letI := ratOps f
+    (applyReduction P ct ch).1.stepBad = ct.stepBad ∧ (applyReduction P ct ch).1.hSum = ct.hSum ∧
+    (applyReduction P ct ch).1.stepOk = ct.stepOk := by
+  unfold applyReduction
+  split_ifs <;> exact ⟨rfl, rfl, rfl⟩
+
+end hang
+
+/-- the hang listed for C08 (`10 SAVE 2`: the SAVEd moles do not depend on TIME), on the model: whatever the fuel, the loop is
+still running, no step was accepted, no bad step was counted and the sub-step has shrunk geometrically -/
+example :
+    (letI := ratOps exFns
+     let r := rkKinetics (genParams 0) (fun _ _ => 1) (fun _ m _ => m.map (fun _ => 2)) 0 1 1 6 [1/100000000] [1] 500 40
+     (r.1 == Status.fuel && r.2.1.stepOk == 0 && r.2.1.stepBad == 0 && decide (r.2.1.h < 1/1000000000000))) = true := by
+  decide +kernel
+
+/-- `-runge_kutta 1` and a rate `a·TOTAL_TIME` (zero at the start of the step): the model — like the code, see the known finding
+`rk1-equal-rate-test-at-start-time` — leaves through the early exit without reacting anything, while `-runge_kutta 6` transfers
+the exact `a T²/2` -/
+example :
+    (letI := ratOps exFns
+     let F : Rat → List Rat → Rat → List Rat := fun t _ h => [t * h / 10000000]
+     let r1 := rkKinetics (genParams 0) (fun _ _ => 1) F 0 100 1 1 [1/100000000] [1/100] 500 5
+     let r6 := rkKinetics (genParams 0) (fun _ _ => 1) F 0 100 1 6 [1/100000000] [1/100] 500 5
+     (r1.1 == Status.earlyExit && r1.2.2.m == [1/100] && r6.1 == Status.done && r6.2.2.m == [19/2000])) = true := by
+  decide +kernel
 
 end PhreeqcVerif.C12
